@@ -123,31 +123,30 @@ func init() {
 	// c09.password <user> <pw> <ip> <jobs: S|C:name:ip+ip;...|->
 	ops["c09.password"] = func(a []string) string {
 		userName, pw, ip := string(unhex(a[0])), unhex(a[1]), string(unhex(a[2]))
-		config.Server.Schedule = nil
-		config.Server.Continuous = nil
-		if a[3] != "-" {
-			for _, j := range strings.Split(a[3], ";") {
-				p := strings.Split(j, ":")
-				var allow []string
-				if p[2] != "" {
-					allow = strings.Split(p[2], "+")
-				}
-				if p[0] == "S" {
-					var s config.Scheduled
-					s.Name, s.AllowFrom = p[1], allow
-					config.Server.Schedule = append(config.Server.Schedule, s)
-				} else {
-					var c config.Continuous
-					c.Name, c.AllowFrom = p[1], allow
-					config.Server.Continuous = append(config.Server.Continuous, c)
-				}
-			}
-		}
+		verifSetJobs(a[3])
 		err := server.VerifPasswordCallback(fakeConn{userName, strAddr(ip + ":51234")}, pw)
 		if err != nil {
 			return "reject"
 		}
 		return "accept"
+	}
+
+	// c09.pwseq <jobs: S|C:name:ip+ip;...|-> <user:pw:ip,...> : several password logins against ONE
+	// server value and one job configuration, in order (what a server keeps between handshakes)
+	ops["c09.pwseq"] = func(a []string) string {
+		verifSetJobs(a[0])
+		s := server.VerifServerValue()
+		var res []string
+		for _, at := range strings.Split(a[1], ",") {
+			p := strings.Split(at, ":")
+			err := server.VerifPasswordCallbackOn(s, fakeConn{string(unhex(p[0])), strAddr(string(unhex(p[2])) + ":51234")}, unhex(p[1]))
+			if err != nil {
+				res = append(res, "reject")
+			} else {
+				res = append(res, "accept")
+			}
+		}
+		return strings.Join(res, ",")
 	}
 
 	// c09.health <decoded command> : what a health session answers
@@ -181,5 +180,28 @@ func init() {
 		queued := h.VerifC09QueuedLines()
 		h.Shutdown()
 		return fmt.Sprintf("%s;data=%d", res, queued)
+	}
+}
+
+func verifSetJobs(spec string) {
+	config.Server.Schedule = nil
+	config.Server.Continuous = nil
+	if spec != "-" {
+		for _, j := range strings.Split(spec, ";") {
+			p := strings.Split(j, ":")
+			var allow []string
+			if p[2] != "" {
+				allow = strings.Split(p[2], "+")
+			}
+			if p[0] == "S" {
+				var s config.Scheduled
+				s.Name, s.AllowFrom = p[1], allow
+				config.Server.Schedule = append(config.Server.Schedule, s)
+			} else {
+				var c config.Continuous
+				c.Name, c.AllowFrom = p[1], allow
+				config.Server.Continuous = append(config.Server.Continuous, c)
+			}
+		}
 	}
 }
